@@ -252,8 +252,12 @@ class ContentElement:
     if child.get_doc() != self.get_doc():
       raise RuntimeError("Element belongs to a different document")
 
-    if child is self:
-      raise RuntimeError("Cannot add a root element to its descendents")
+    ancestor = self
+
+    while ancestor is not None:
+      if ancestor is child:
+        raise RuntimeError("Cannot add a root element to its descendents")
+      ancestor = ancestor.parent()
 
     # pylint: disable=W0212
 
